@@ -163,6 +163,13 @@ pub fn build(rng: &mut Rng, i: usize) -> PDB {
     }
     let matrix = |rng: &mut Rng| {
         let mut m = [[0.0f64; 4]; 3];
+        // now and then a matrix with a particular value: the identity, all zeros, a pure translation
+        match rng.below(8) {
+            0 => return TransformationMatrix::identity(),
+            1 => return TransformationMatrix::from_matrix(m),
+            2 => return TransformationMatrix::translation(1.0, -2.5, 0.125),
+            _ => {}
+        }
         for r in m.iter_mut() {
             for (c, v) in r.iter_mut().enumerate() {
                 *v = if c == 3 { value(rng, -99_999_999, 999_999_999, 100_000.0) / 1000.0 } else { value(rng, -99_999_999, 999_999_999, 1_000_000.0) / 100.0 };
